@@ -296,6 +296,12 @@ def _run(ctx, quick, pool):
     ctx.notes["natural_runs"] = nat_stats
     ctx.notes["model_behaviours_accepted_by_monitor"] = len(model_traces)
     ctx.notes["seeded_design_defects_caught_by"] = caught
+    # ---- traces harvested from the repository's own test-suite (DESIGN 4.2 (ii)): the adaptive solves of
+    # tests/test_sdeint.py run by the real controller, validated event by event by TraceLoop
+    from harness import harvest_run
+    t0 = time.time()
+    harvest_run.harvest(ctx, "sdeint_quick" if quick else "sdeint", ["loop"], workers=8 if quick else 16)
+    tmark["harvest"] = round(time.time() - t0, 1)
     ctx.notes["timing_s"] = tmark
 
 
